@@ -19,7 +19,8 @@ RULE = ('models generated as trees by the harness (recursive blocks; single and 
         'wins), match-rule processors not re-run. distinct = (tree shape, variant); non-trivial = depth >= 3, an abstract '
         'slot and a replacement present')
 REQUIRED = {'models': 200, 'processor_calls_checked': 5000, 'abstract_slot_calls': 500, 'replacements_checked': 200,
-            'falsy_replacements': 30, 'two_file_loads': 40, 'user_class_loads': 40, 'depth3_models': 50}
+            'falsy_replacements': 30, 'two_file_loads': 40, 'user_class_loads': 40, 'depth3_models': 50,
+            'two_language_loads': 30}
 
 GRAMMAR = '''
 Model: imports*=Import 'model' name=ID items*=Item;
@@ -131,6 +132,11 @@ def one(ctx, i, rep=None):
     salt = r.randint(0, 999)
     two_files = (i % 4 == 1)
     use_classes = (i % 3 == 2)
+    # two languages: the imported file belongs to another registered language (own metamodel, with the recording
+    # processors); the main language has no object processors at all
+    multi_lang = (i % 8 == 5)
+    if multi_lang:
+        use_classes = False
     roots = []
     for fi in range(2 if two_files else 1):
         names = []
@@ -140,9 +146,11 @@ def one(ctx, i, rep=None):
             root['items'].append(gen_tree(r, 1, names, md, 'm%dn' % fi))
         roots.append(root)
     if two_files:
-        roots[0]['imports'] = ['other.m']
+        roots[0]['imports'] = ['other.m2' if multi_lang else 'other.m']
     nodes_all = [n for rt in roots for n in all_nodes(rt)]
     named = [n for n in nodes_all if n['kind'] != 'Model']
+    if multi_lang:
+        named = [n for n in all_nodes(roots[0]) if n['kind'] != 'Model']
     for n in nodes_all:
         if n['kind'] == 'Ref':
             n['target'] = r.choice(named)['name']
@@ -224,13 +232,24 @@ def one(ctx, i, rep=None):
 
     mm = metamodel_from_str(GRAMMAR, classes=classes)
     mm.register_scope_providers({'*.*': sp.PlainNameImportURI()})
-    mm.register_obj_processors({'Model': mk('Model'), 'Block': mk('Block'), 'Leaf': mk('Leaf'), 'Ref': mk('Ref'),
-                                'Item': mk('Item'), 'Val': mk('Val', True), 'Tag': mk('Tag', True)})
+    procs = {'Model': mk('Model'), 'Block': mk('Block'), 'Leaf': mk('Leaf'), 'Ref': mk('Ref'),
+             'Item': mk('Item'), 'Val': mk('Val', True), 'Tag': mk('Tag', True)}
+    if multi_lang:
+        from textx import register_language, clear_language_registrations, LanguageDesc
+        mm2 = metamodel_from_str(GRAMMAR)
+        mm2.register_scope_providers({'*.*': sp.PlainNameImportURI()})
+        mm2.register_obj_processors(procs)
+        clear_language_registrations()
+        register_language(LanguageDesc('tvc13main', pattern='*.m', description='main', metamodel=mm))
+        register_language(LanguageDesc('tvc13other', pattern='*.m2', description='other', metamodel=mm2))
+        ctx.count('two_language_loads')
+    else:
+        mm.register_obj_processors(procs)
     tmp = None
     try:
         if two_files:
             tmp = tempfile.mkdtemp(prefix='tvc13_')
-            for nm, t in zip(['main.m', 'other.m'], texts):
+            for nm, t in zip(['main.m', 'other.m2' if multi_lang else 'other.m'], texts):
                 with open(os.path.join(tmp, nm), 'w') as f:
                     f.write(t)
             ctx.count('two_file_loads')
@@ -243,7 +262,17 @@ def one(ctx, i, rep=None):
     finally:
         if tmp:
             shutil.rmtree(tmp, ignore_errors=True)
+        if multi_lang:
+            clear_language_registrations()
     ctx.count('models')
+    checked_roots = roots[1:] if multi_lang else roots
+    if multi_lang:
+        mine = {n['name'] for n in all_nodes(roots[0])}
+        stray = [e for e in log if e[1][0] == 'obj' and e[1][3] in mine]
+        if stray:
+            ctx.violation(None, 'a processor of the other language ran for %s of the main model' % stray[0][1][3], {'files': texts}, rep)
+            return
+        nodes_all = [n for n in all_nodes(roots[1])]
     if use_classes:
         ctx.count('user_class_loads')
     wit = {'files': texts, 'user_classes': use_classes, 'salt': salt, 'log_excerpt': [repr(e)[:120] for e in log[:40]]}
@@ -297,7 +326,7 @@ def one(ctx, i, rep=None):
                 return False
         return t_last
 
-    for rt in roots:
+    for rt in checked_roots:
         if check(rt, 0, None) is False:
             return
     # abstract processor must not run for objects that are not in an abstract-typed slot
@@ -358,7 +387,7 @@ def one(ctx, i, rep=None):
                     if not verify(c, v):
                         return False
         return True
-    for rt in roots:
+    for rt in checked_roots:
         obj = by_name.get(rt['name'])
         if obj is None:
             fail('model %s not found among the loaded models' % rt['name'])
@@ -367,7 +396,7 @@ def one(ctx, i, rep=None):
             return
     if maxd[0] >= 3:
         ctx.count('depth3_models')
-    ctx.case((tuple((n['kind']) for n in nodes_all), two_files, use_classes), maxd[0] >= 3 and has_abs and has_rep,
+    ctx.case((tuple((n['kind']) for n in nodes_all), two_files, use_classes, multi_lang), maxd[0] >= 3 and has_abs and has_rep,
              {'files': texts, 'processor_calls': len(log)} if ctx.evaluations < 2 else None)
 
 
